@@ -36,6 +36,26 @@ def source_has_finally() -> bool:
     return re.search(r"^\s*finally\s*:", body, flags=re.M) is not None
 
 
+def source_retains_dirty() -> bool:
+    """_updateIntermediateValues: is the dirty set cleared only after the loop (so that it survives a raising
+    defn.update())?  fail-closed reading of the source text"""
+    txt = (core.REPO / "src/cogent3/recalculation/scope.py").read_text()
+    m = re.search(r"def _updateIntermediateValues\(self\):(.*?)\n    def ", txt, flags=re.S)
+    if not m:
+        raise core.CheckError("cannot locate _updateIntermediateValues")
+    body = m.group(1)
+    if "defn.update()" not in body or "_changed" not in body:
+        raise core.CheckError("_updateIntermediateValues no longer has the modelled shape")
+    loop = body.index("for defn in self.defns")
+    swapped = re.search(r"self\._changed\s*\)?\s*=\s*\(?.*set\(\)", body[:loop]) is not None or "set()" in body[:loop]
+    cleared_after = re.search(r"self\._changed\.clear\(\)|self\._changed\s*=\s*set\(\)", body[loop:]) is not None
+    if swapped:
+        return False
+    if cleared_after:
+        return True
+    raise core.CheckError("_updateIntermediateValues: cannot tell when the dirty set is cleared")
+
+
 def source_export_chrono() -> bool:
     """does _InputDefn.get_param_rules emit the rules in creation order of the settings (proposed fix C07-3)
     rather than in order of the first cell of each group?  fail-closed reading of the source text"""
@@ -139,9 +159,13 @@ def ctl_oracle(case):
     ds, asg, ops = case["defns"], list(case["asg"]), case["ops"]
 
     def ev():
+        """None when a definition rejects the current settings (a newly built function would raise)"""
         vals = []
-        for d, (k, c, args) in enumerate(ds):
-            vals.append(asg[d] if not args else cellfun(k, c, [vals[a] for a in args]))
+        try:
+            for d, (k, c, args) in enumerate(ds):
+                vals.append(asg[d] if not args else cellfun(k, c, [vals[a] for a in args]))
+        except Fail:
+            return None
         return vals
 
     out = [ev()]
@@ -276,7 +300,7 @@ def exhaustive_block(tier):
     return cases
 
 
-def ctl_case(rng, block, raising=False):
+def ctl_case(rng, block, raising=False, guards=False):
     nleaf = rng.randint(1, 3)
     nev = rng.randint(1, 5)
     ds = [[2, 0, []] for _ in range(nleaf)]
@@ -291,6 +315,17 @@ def ctl_case(rng, block, raising=False):
         if d not in used:
             ds[top][2] = sorted(set(ds[top][2]) | {d})
     asg = [rng.randint(0, 6) if not d[2] else 0 for d in ds]
+    if guards:
+        # some definitions reject argument values whose sum exceeds a bound close to the initial sum
+        for d in range(nleaf, len(ds)):
+            if rng.random() < 0.4:
+                ds[d][0] = 4
+                vals = ctl_oracle(dict(defns=ds[: d] + [[2, 0, ds[d][2]]], asg=asg[: d + 1], ops=[]))[0]
+                ds[d][1] = (vals[-1] if vals else 20) + rng.choice([0, 1, 2, 3, 5])
+        if ctl_oracle(dict(defns=ds, asg=asg, ops=[]))[0] is None:
+            for d in ds:
+                if d[0] == 4:
+                    d[1] = 10 ** 6
     ops = []
     for _ in range(rng.randint(3, 10)):
         if rng.random() < 0.55:
@@ -434,13 +469,54 @@ def lf_exhaustive_block(tier):
     return cases
 
 
+GS_P = [0.17241379310344826, 0.043103448275862065, 0.7758620689655171, 0.008620689655172414]
+
+
+def lf_rejection_block(rng, tier):
+    """GeneralStationary: settings that the model rejects (inadmissible rate / motif-probability combinations), the
+    caller catches the exception and goes on; later settings repair the combination.  All sequences over a small
+    alphabet + random ones."""
+    tree, edges = TREES[0]
+    par = lambda **kw: dict(dict(what="par", edges=None, bins=None, const=False, indep=False), **kw)
+    alphabet = [
+        dict(op="set", s=par(par="C>T", value=0.05)),
+        dict(op="set", s=par(par="C>T", value=1.0)),
+        dict(op="set", s=dict(what="mprobs", value=GS_P)),
+        dict(op="set", s=dict(what="mprobs", value=[0.25, 0.25, 0.25, 0.25])),
+        dict(op="set", s=par(par="T>C", value=20.0)),
+        dict(op="set", s=par(par="length", edges=["a"], value=0.5, indep=True)),
+    ]
+    cases = []
+    for seed in (1, 2):
+        spec = dict(tree=tree, model="GS", length=60, aln_seed=seed)
+        hists = list(itertools.product(alphabet[:4], repeat=3)) if tier == "quick" else list(itertools.product(alphabet, repeat=3))
+        if seed == 2:
+            hists = hists[:: 2 if tier == "quick" else 1]
+        cases += [dict(kind="lf", block="rejections", spec=spec, edges=edges, tolerant=True, ops=[dict(o) for o in h]) for h in hists]
+    rates = ["A>G", "A>C", "C>G", "C>A", "A>T", "C>T", "T>G", "T>A", "T>C"]
+    for _ in range(10 if tier == "quick" else 150):
+        spec = dict(tree=tree, model="GS", length=60, aln_seed=rng.randint(0, 3))
+        ops = []
+        for _ in range(rng.randint(4, 8)):
+            if rng.random() < 0.35:
+                p = [rng.choice([0.01, 0.05, 0.2, 0.5, 0.9]) for _ in range(4)]
+                ops.append(dict(op="set", s=dict(what="mprobs", value=[x / sum(p) for x in p])))
+            elif rng.random() < 0.8:
+                ops.append(dict(op="set", s=par(par=rng.choice(rates), value=rng.choice([0.05, 0.2, 1.0, 1.0, 5.0, 20.0, 100.0]))))
+            else:
+                ops.append(dict(op="postponed", raises=False, body=[par(par=rng.choice(rates), value=rng.choice([0.05, 1.0, 20.0])),
+                                                                    par(par="length", edges=[rng.choice(edges)], value=0.3, indep=True)]))
+        cases.append(dict(kind="lf", block="rejections", spec=spec, edges=edges, tolerant=True, ops=ops))
+    return cases
+
+
 # ------------------------------------------------------------------ rendering for Coq
 
 def zl(xs):
     return "[" + ";".join(zlit(int(x)) for x in xs) + "]"
 
 
-def coq_case(c, fin):
+def coq_case(c, fin, retain=True):
     if c["kind"] == "calc":
         cells = "[" + ";".join(f"({k},{zlit(cc)},{zl(a)},{cbool(rec)})" for k, cc, a, rec in c["cells"]) + "]"
         ops = []
@@ -457,11 +533,30 @@ def coq_case(c, fin):
             ops.append(f"ZAssign {o[1]} {zlit(o[2])}")
         else:
             ops.append("ZPost [" + ";".join(f"({d},{zlit(v)})" for d, v in o[1]) + f"] {cbool(o[2])}")
-    return f"ACtl ({cbool(fin)}, {ds}, {zl(c['asg'])}, [" + ";".join(ops) + "])"
+    return f"ACtl ({cbool(fin)}, {cbool(retain)}, {ds}, {zl(c['asg'])}, [" + ";".join(ops) + "])"
 
 
-def run_model(cases, fin):
-    return core.coq_eval(PROP, ["Model.Calc", "Model.CalcRun"], "run_any", [coq_case(c, fin) for c in cases], "anycase", shard=120)
+def permute_ctl(c, order):
+    """renumber the definitions in the controller's own topological order (order[new] = old)"""
+    new_of = {old: new for new, old in enumerate(order)}
+    ds = [[c["defns"][old][0], c["defns"][old][1], [new_of[a] for a in c["defns"][old][2]]] for old in order]
+    asg = [c["asg"][old] for old in order]
+    ops = []
+    for o in c["ops"]:
+        if o[0] == "assign":
+            ops.append(["assign", new_of[o[1]], o[2]])
+        else:
+            ops.append(["post", [[new_of[d], v] for d, v in o[1]], o[2]])
+    return dict(c, defns=ds, asg=asg, ops=ops)
+
+
+def run_model(cases, fin, retain=True, impl=None):
+    terms = []
+    for k, c in enumerate(cases):
+        if c["kind"] == "ctl" and impl is not None and isinstance(impl[k], list) and impl[k] and impl[k][0][0] == "order":
+            c = permute_ctl(c, impl[k][0][1])
+        terms.append(coq_case(c, fin, retain))
+    return core.coq_eval(PROP, ["Model.Calc", "Model.CalcRun"], "run_any", terms, "anycase", shard=120)
 
 
 # ------------------------------------------------------------------ comparison
@@ -535,12 +630,27 @@ def check_ctl(rep, c, ir, mr, stats):
     if isinstance(ir, dict) and "exc" in ir:
         rep.violation("ctl:runner-raised", dict(case=c, observed_impl=ir, broken="the real ParameterController raised"))
         return None
+    order = ir[0][1]
+    ir = ir[1:]
+    if isinstance(mr, list) and mr and isinstance(mr[0], list) and mr[0] and mr[0][0] == "order":
+        mr = mr[1:]                      # (model unavailable: the implementation's own output was passed)
+    elif isinstance(mr, list):
+        # the model ran on the case renumbered in the controller's order: map its values back
+        mr = [[[st[0][order.index(d)] for d in range(len(order))], st[1]] for st in mr]
     orc = ctl_oracle(c)
     raised = False
+    rejected = False
     for k, exp in enumerate(orc):
         if k and c["ops"][k - 1][0] == "post" and c["ops"][k - 1][2]:
             raised = True
         stats["steps"] += 1
+        if exp is None:
+            stats["ctl_inadmissible_steps"] += 1
+            rejected = True
+            continue
+        if rejected:
+            stats["ctl_repairs"] += 1
+            rejected = False
         if ir[k][0] != exp:
             key = "postponed-exception:stale" if raised else f"ctl:stale:{c['ops'][k - 1][0] if k else 'init'}"
             rep.violation(key, dict(case=dict(c, ops=c["ops"][:k]), step=k, expected_by_spec=exp, observed_impl=jsonable(ir[k]),
@@ -566,10 +676,18 @@ def check_lf(rep, c, ir, stats):
                       dict(case=c, observed_impl=ir, broken="a valid history made the likelihood function raise or hang"))
         return
     raised = False
+    was_rejected = False
     for k, (tag, lnl, f_lnl, nfp, f_nfp, extra, rt, tabs) in enumerate(ir):
         stats["lf_steps"] += 1
         if tag == "postponed-raise":
             raised = True
+        if f_lnl is None:
+            stats["lf_inadmissible_steps"] += 1      # the newly built function rejects these settings too
+            was_rejected = True
+            continue
+        if c.get("tolerant") and was_rejected:
+            stats["lf_repairs"] += 1
+            was_rejected = False
         bad = None
         if abs(lnl - f_lnl) > TOL * max(1.0, abs(f_lnl)):
             bad = "lnL"
@@ -585,6 +703,8 @@ def check_lf(rep, c, ir, stats):
                                     broken="likelihood function value differs from a newly built function given the same final settings"
                                            + (" (an exception inside `with lf.updates_postponed()` left updates suspended)" if raised else "")))
             return
+        if rt is None:
+            continue
         # rule export -> new function -> import: lnL, nfp and every parameter value
         stats["roundtrips"] += 1
         stats["rt_params"] += rt["nparams"]
@@ -802,7 +922,8 @@ def check_scope_tables(rep, lfs, impl_l, fin, chrono, stats):
 def new_stats():
     return dict(steps=0, undo_hits=0, recycled_evals=0, exceptions=0, outside_domain_steps=0, lf_steps=0, lf_calc_steps=0,
                 roundtrips=0, rt_params=0, rules=0, rules_init_zero=0, rules_init_at_lower=0, rules_init_at_upper=0,
-                rules_const_zero=0, rules_vector_with_zero=0, scope_cases=0, scope_steps=0, scope_cells=0, nontrivial=set())
+                rules_const_zero=0, rules_vector_with_zero=0, scope_cases=0, scope_steps=0, scope_cells=0, ctl_inadmissible_steps=0, ctl_repairs=0,
+                lf_inadmissible_steps=0, lf_repairs=0, nontrivial=set())
 
 
 def run(tier: str, seed: int) -> int:
@@ -810,6 +931,7 @@ def run(tier: str, seed: int) -> int:
     rng = random.Random(seed * 7919 + 7)
     fin = source_has_finally()
     chrono = source_export_chrono()
+    retain = source_retains_dirty()
     pr = core.proof_stage(PROP, COQ_TARGETS)
     core.proof_coverage(rep, pr, "make theories/Properties/C07.vo theories/Model/CalcRun.vo && coqc gen/assum_C07.v (Print Assumptions)", [
         "cell functions are abstract (Section variables f/h); the theorems hold for every choice; None = the calc raised "
@@ -825,7 +947,8 @@ def run(tier: str, seed: int) -> int:
         "sampled by the newly-built-function oracle with relative tolerance 1e-9",
         "scope-table model: one numeric parameter, dimensions (edge, bin, locus), plain category lists (no EACH/ALL wrappers); Setting "
         "identity = creation order; correspondence maps the floats of a case to integers order-preservingly",
-        f"variants read from the source text (fail-closed): updates_postponed finally={fin}; get_param_rules creation-order export={chrono}",
+        f"variants read from the source text (fail-closed): updates_postponed finally={fin}; get_param_rules creation-order export={chrono}; "
+        f"_updateIntermediateValues keeps the dirty set when an update raises={retain}",
     ])
     rep.assumptions += ["change vectors name optimisable parameters (index < number of OptPars), each at most once; histories that "
                         "set a ConstCell through Calculator.change or repeat an index are compared model-vs-implementation only"]
@@ -844,6 +967,8 @@ def run(tier: str, seed: int) -> int:
     cases += [calc_case(rng, "random-small", small=True, nsteps=rng.randint(4, 12)) for _ in range(n_calc // 2)]
     cases += [calc_case(rng, "random-const", with_const=True) for _ in range(n_const)]
     cases += [ctl_case(rng, "random") for _ in range(n_ctl)]
+    cases += [ctl_case(rng, "random-rejections", guards=True) for _ in range(n_ctl)]
+    cases += lf_rejection_block(rng, tier)
     cases += lf_exhaustive_block(tier)
     cases += [lf_case(rng, "random") for _ in range(n_lf)]
 
@@ -853,7 +978,7 @@ def run(tier: str, seed: int) -> int:
     impl_l = core.run_impl_sharded("c07_impl.py", lfs, nshards=min(core.NPROC, max(1, len(lfs) // 4)), timeout=3000)
     model = None
     try:
-        model = run_model(synth, fin)
+        model = run_model(synth, fin, retain, impl_s)
     except core.CheckError as e:
         if not proof_broken:
             raise
@@ -895,6 +1020,9 @@ def run(tier: str, seed: int) -> int:
                                 exported_rules_init_on_upper_bound=stats["rules_init_at_upper"],
                                 exported_rules_constant_exactly_0=stats["rules_const_zero"],
                                 exported_probability_vectors_with_a_zero=stats["rules_vector_with_zero"],
+                                controller_steps_in_a_rejected_state=stats["ctl_inadmissible_steps"],
+                                controller_repairs_after_rejection=stats["ctl_repairs"],
+                                lf_steps_in_a_rejected_state=stats["lf_inadmissible_steps"], lf_repairs_after_rejection=stats["lf_repairs"],
                                 scope_table_model_cases=stats["scope_cases"], scope_table_steps_compared=stats["scope_steps"],
                                 scope_table_cells_compared=stats["scope_cells"]),
         model_impl_disagreements=len(disagreements),
